@@ -284,6 +284,23 @@ class Impl:
         x = self.find_sop(op.operation_id)
         return f"ok {x.start_time}"
 
+    def cmd_sstep(self, ts):
+        """The same request, made through `DispatchingRuleSolver.step`: a user-defined rule names the operation (ready or not - a rule
+        replaying a fixed priority list), a user-defined machine chooser names the machine."""
+        from job_shop_lib.dispatching.rules import DispatchingRuleSolver
+        j, p = int(ts[0]), int(ts[1])
+        op = self.instance.jobs[j][p]
+        m = op.machines[0] if ts[2] == "none" else int(ts[2])
+        if ts[2] == "none" and len(op.machines) > 1:
+            return self.cmd_disp(ts)        # (no machine named for a flexible operation: a request only `dispatch` can express)
+        solver = DispatchingRuleSolver(dispatching_rule=lambda _d: op, machine_chooser=lambda _d, _o: m)
+        try:
+            solver.step(self.dispatcher)
+        except Exception:  # pylint: disable=broad-except
+            return "raise"
+        x = self.find_sop(op.operation_id)
+        return f"ok {x.start_time}"
+
     def cmd_reset(self, ts):
         self.dispatcher.reset()
         return "ok"
